@@ -323,7 +323,8 @@ def run_shard(item):
                         key = S.print_sdl(s2)
                         if key not in seen and not SV.violations(s2):
                             seen.add(key)
-                            bases.append((s2, trail + ((kind, site),)))
+                            if len(seen) % 4 == 0:  # every fourth distinct level-2 base (the catalogue SX is applied to each in full)
+                                bases.append((s2, trail + ((kind, site),)))
         bases = [b for i, b in enumerate(bases) if i % n == k]
         for base, trail in bases:
             if SV.violations(base):
